@@ -480,3 +480,312 @@ Proof.
       pose proof (proj1 (keeps_unbound true (sigs_of ms) x) e s Hne Hl) as Hl'.
       destruct (check_expr true (sigs_of ms) s e) as [s1 t1]. cbn in Hl'. apply IH; auto.
 Qed.
+
+(* ------------------------------------------------------------------ parentheses *)
+
+Lemma strip_ok : forall fx sigs,
+  (forall e s, check_expr fx sigs s (strip_expr e) = check_expr fx sigs s e) /\
+  (forall b s t0, check_block fx sigs s t0 (strip_block b) = check_block fx sigs s t0 b).
+Proof.
+  intros fx sigs. apply expr_block_ind.
+  - reflexivity.
+  - reflexivity.
+  - intros e IH s. cbn [strip_expr check_expr]. apply IH.
+  - intros e IH s. cbn [strip_expr check_expr]. now rewrite IH.
+  - reflexivity.
+  - intros ps rt th body IH s. cbn [strip_expr check_expr]. now rewrite IH.
+  - intros x e IH s. cbn [strip_expr check_expr]. now rewrite IH.
+  - intros x e IH s. cbn [strip_expr check_expr]. now rewrite IH.
+  - intros e IH s. cbn [strip_expr check_expr]. now rewrite IH.
+  - reflexivity.
+  - intros body IHb ct handler IHh s. cbn [strip_expr check_expr]. rewrite IHh.
+    destruct (check_block fx sigs s TNil handler) as [s1 th]. now rewrite IHb.
+  - reflexivity.
+  - intros e IHe b IHb s t0. cbn [strip_block check_block]. rewrite IHe.
+    destruct (check_expr fx sigs s e) as [s1 t1]. apply IHb.
+Qed.
+
+Lemma strip_fold : forall fx sg ms s0,
+  fold_left (check_method fx sg) (map strip_method ms) s0 = fold_left (check_method fx sg) ms s0.
+Proof.
+  induction ms as [|m ms IH]; intros s0; cbn; [reflexivity|].
+  rewrite IH. f_equal. destruct m as [[[n rt] u] b]. unfold strip_method, check_method.
+  now rewrite (proj2 (strip_ok fx sg)).
+Qed.
+
+Theorem parens_prog : forall fx p, check_prog fx (strip_prog p) = check_prog fx p.
+Proof.
+  intros fx [ms mn]. unfold check_prog, strip_prog. cbn [methods main].
+  assert (Hs : sigs_of (map strip_method ms) = sigs_of ms).
+  { unfold sigs_of. rewrite map_map. apply map_ext. intros [[[? ?] ?] ?]. reflexivity. }
+  rewrite Hs, strip_fold, (proj2 (strip_ok fx (sigs_of ms))). reflexivity.
+Qed.
+
+(* ------------------------------------------------------------------ alpha-renaming *)
+
+Section Ren.
+Variable f : name -> name.
+Hypothesis f_inj : forall x y, f x = f y -> x = y.
+
+Definition renrel (s s' : st) : Prop :=
+  sregs s' = sregs s /\ serrs s' = serrs s /\ sthrown s' = sthrown s /\ slocals s' = ren_params f (slocals s).
+
+Lemma f_eqb : forall x y, N.eqb (f x) (f y) = N.eqb x y.
+Proof.
+  intros x y. destruct (N.eqb x y) eqn:E.
+  - apply N.eqb_eq in E. subst. apply N.eqb_refl.
+  - apply N.eqb_neq. intro H. apply f_inj in H. apply N.eqb_neq in E. contradiction.
+Qed.
+
+Lemma lookup_ren : forall (l : list (name * ty)) x, lookup (ren_params f l) (f x) = lookup l x.
+Proof.
+  induction l as [|[y t] l IH]; intros x; cbn; [reflexivity|]. rewrite f_eqb. destruct (N.eqb x y); auto.
+Qed.
+
+Lemma renrel_err : forall s s', renrel s s' -> renrel (err s) (err s').
+Proof. intros s s' (H1 & H2 & H3 & H4). repeat split; cbn; auto. Qed.
+
+Lemma renrel_throw : forall s s' u, renrel s s' -> renrel (check_throw s u) (check_throw s' u).
+Proof.
+  intros s s' u Hr. pose proof Hr as (H1 & H2 & H3 & H4). unfold check_throw. destruct u; [assumption|].
+  rewrite H1. destruct (covered _ _); [assumption|]. destruct (rinft _); [|now apply renrel_err].
+  repeat split; cbn; auto. now rewrite H3.
+Qed.
+
+Lemma ren_ok : forall fx sigs,
+  (forall e s s', renrel s s' ->
+     renrel (fst (check_expr fx sigs s e)) (fst (check_expr fx sigs s' (ren_expr f e))) /\
+     snd (check_expr fx sigs s' (ren_expr f e)) = snd (check_expr fx sigs s e)) /\
+  (forall b s s' t0, renrel s s' ->
+     renrel (fst (check_block fx sigs s t0 b)) (fst (check_block fx sigs s' t0 (ren_block f b))) /\
+     snd (check_block fx sigs s' t0 (ren_block f b)) = snd (check_block fx sigs s t0 b)).
+Proof.
+  intros fx sigs. apply expr_block_ind.
+  - intros t s s' Hr. cbn. auto.
+  - intros x s s' Hr. cbn [check_expr ren_expr]. pose proof Hr as (H1 & H2 & H3 & H4). rewrite H4, lookup_ren.
+    destruct (lookup (slocals s) x); cbn; auto using renrel_err.
+  - intros e IH s s' Hr. cbn [check_expr ren_expr]. auto.
+  - intros e IH s s' Hr. cbn [check_expr ren_expr].
+    destruct (IH _ _ Hr) as [Hb Ht].
+    destruct (check_expr fx sigs s e) as [sa ta]. destruct (check_expr fx sigs s' (ren_expr f e)) as [sb tb].
+    cbn [fst snd] in Hb, Ht. subst tb.
+    destruct ta; cbn [fst snd]; auto using renrel_err.
+    destruct (N.eqb np 0); cbn [fst snd]; auto using renrel_err, renrel_throw.
+  - intros m s s' Hr. cbn [check_expr ren_expr]. destruct (lookup sigs m) as [[t u]|]; cbn [fst snd]; auto using renrel_err, renrel_throw.
+  - intros ps rt th body IH s s' Hr. cbn [check_expr ren_expr].
+    pose proof Hr as (H1 & H2 & H3 & H4). rewrite H1, H2.
+    set (r1 := mkRegs rt th MethodMode _ _ _).
+    set (decl := match th with Some u => u | None => [] end).
+    assert (Hr1 : renrel (mkSt r1 (ps ++ slocals s) (serrs s) decl) (mkSt r1 (ren_params f ps ++ slocals s') (serrs s) decl)).
+    { repeat split; cbn; auto. rewrite H4. unfold ren_params. now rewrite map_app. }
+    destruct (IH _ _ TNil Hr1) as [(G1 & G2 & G3 & G4) Ht].
+    destruct (check_block fx sigs (mkSt r1 (ps ++ slocals s) (serrs s) decl) TNil body) as [sa ta].
+    destruct (check_block fx sigs (mkSt r1 (ren_params f ps ++ slocals s') (serrs s) decl) TNil (ren_block f body)) as [sb tb].
+    cbn [fst snd] in G1, G2, G3, G4, Ht. subst tb. rewrite G3.
+    assert (Herr : forall r, serrs (if assignable ta r then sb else err sb) = serrs (if assignable ta r then sa else err sa))
+      by (intro r; destruct (assignable ta r); cbn; congruence).
+    unfold ren_params at 2. rewrite map_length.
+    split; [|reflexivity].
+    unfold exit_method. rewrite H1, H3. repeat split; cbn; auto.
+    destruct rt as [r|]; [destruct (rinfr (sregs s))|]; auto.
+  - intros y e IH s s' Hr. cbn [check_expr ren_expr].
+    destruct (IH _ _ Hr) as [Hb Ht].
+    destruct (check_expr fx sigs s e) as [sa ta]. destruct (check_expr fx sigs s' (ren_expr f e)) as [sb tb].
+    cbn [fst snd] in Hb, Ht. subst tb. pose proof Hb as (H1 & H2 & H3 & H4). rewrite H4, lookup_ren.
+    destruct (lookup (slocals sa) y); [destruct (assignable ta t)|]; cbn [fst snd]; auto using renrel_err.
+    split; auto. repeat split; cbn; auto. now rewrite H4.
+  - intros y e IH s s' Hr. cbn [check_expr ren_expr].
+    destruct (IH _ _ Hr) as [Hb Ht].
+    destruct (check_expr fx sigs s e) as [sa ta]. destruct (check_expr fx sigs s' (ren_expr f e)) as [sb tb].
+    cbn [fst snd] in Hb, Ht. subst tb. pose proof Hb as (H1 & H2 & H3 & H4). rewrite H4, lookup_ren.
+    destruct (lookup (slocals sa) y); [destruct (assignable ta t)|]; cbn [fst snd]; auto using renrel_err.
+  - intros e IH s s' Hr. cbn [check_expr ren_expr].
+    destruct (IH _ _ Hr) as [Hb Ht].
+    destruct (check_expr fx sigs s e) as [sa ta]. destruct (check_expr fx sigs s' (ren_expr f e)) as [sb tb].
+    cbn [fst snd] in Hb, Ht. subst tb. pose proof Hb as (H1 & H2 & H3 & H4). rewrite H1.
+    destruct (rinfr (sregs sa)); cbn [fst snd]; auto.
+    destruct (rret (sregs sa)); [destruct (assignable ta t)|]; cbn [fst snd]; auto using renrel_err.
+  - intros c s s' Hr. cbn [check_expr ren_expr fst snd]. auto using renrel_throw.
+  - intros body IHb ct handler IHh s s' Hr. cbn [check_expr ren_expr].
+    pose proof Hr as (A1 & A2 & A3 & A4).
+    destruct (IHh s s' TNil Hr) as [(H1 & H2 & H3 & H4) Ht].
+    destruct (check_block fx sigs s TNil handler) as [sa ta].
+    destruct (check_block fx sigs s' TNil (ren_block f handler)) as [sb tb].
+    cbn [fst snd] in H1, H2, H3, H4, Ht. subst tb.
+    assert (Hr2 : renrel (push_scope (set_locals sa (slocals s)) ct) (push_scope (set_locals sb (slocals s')) ct)).
+    { repeat split; cbn; auto. now rewrite H1. }
+    destruct (IHb _ _ TNil Hr2) as [(G1 & G2 & G3 & G4) Ht2].
+    destruct (check_block fx sigs (push_scope (set_locals sa (slocals s)) ct) TNil body) as [sc tc].
+    destruct (check_block fx sigs (push_scope (set_locals sb (slocals s')) ct) TNil (ren_block f body)) as [sd td].
+    cbn [fst snd] in G1, G2, G3, G4, Ht2. subst td.
+    split; [|reflexivity]. repeat split; cbn; auto. now rewrite G1.
+  - intros s s' t0 Hr. cbn. auto.
+  - intros e IHe b IHb s s' t0 Hr. cbn [check_block ren_block].
+    destruct (IHe _ _ Hr) as [Hb Ht].
+    destruct (check_expr fx sigs s e) as [sa ta]. destruct (check_expr fx sigs s' (ren_expr f e)) as [sb tb].
+    cbn [fst snd] in Hb, Ht. subst tb. apply IHb. exact Hb.
+Qed.
+
+Lemma ren_method : forall fx sigs s n rt u body,
+  check_method fx sigs s (n, rt, u, ren_block f body) = check_method fx sigs s (n, rt, u, body).
+Proof.
+  intros. unfold check_method.
+  set (s1 := mkSt _ [] (serrs s) u).
+  assert (Hr : renrel s1 s1) by (repeat split; reflexivity).
+  destruct (proj2 (ren_ok fx sigs) body s1 s1 TNil Hr) as [(H1 & H2 & H3 & H4) Ht].
+  destruct (check_block fx sigs s1 TNil body) as [sa ta].
+  destruct (check_block fx sigs s1 TNil (ren_block f body)) as [sb tb].
+  cbn [fst snd] in H1, H2, H3, H4, Ht. subst tb. unfold exit_method.
+  destruct (assignable ta rt); cbn; congruence.
+Qed.
+
+Theorem rename_method : forall fx ms1 n rt u body ms2 mn,
+  check_prog fx (mkProg (ms1 ++ (n, rt, u, ren_block f body) :: ms2) mn) =
+  check_prog fx (mkProg (ms1 ++ (n, rt, u, body) :: ms2) mn).
+Proof.
+  intros. unfold check_prog. cbn [methods main]. rewrite (sigs_of_app_body ms1 n rt u body).
+  rewrite !fold_left_app. cbn [fold_left]. rewrite ren_method. reflexivity.
+Qed.
+
+End Ren.
+
+Lemma swap_inj : forall x y a b, swap x y a = swap x y b -> a = b.
+Proof.
+  intros x y a b. unfold swap.
+  destruct (N.eqb a x) eqn:E1; destruct (N.eqb b x) eqn:E2;
+    destruct (N.eqb a y) eqn:E3; destruct (N.eqb b y) eqn:E4;
+    repeat match goal with H : N.eqb _ _ = true |- _ => apply N.eqb_eq in H
+                      | H : N.eqb _ _ = false |- _ => apply N.eqb_neq in H end;
+    intros; subst; try congruence.
+Qed.
+
+(* ------------------------------------------------------------------ reordering method definitions *)
+From Coq Require Import Permutation.
+
+Definition bump (k : nat) (s : st) : st := mkSt (sregs s) (slocals s) (serrs s + k) (sthrown s).
+
+Lemma bump_throw : forall s u k, check_throw (bump k s) u = bump k (check_throw s u).
+Proof.
+  intros. unfold check_throw. destruct u; [reflexivity|]. cbn [bump sregs].
+  destruct (covered _ _); [reflexivity|]. destruct (rinft _); reflexivity.
+Qed.
+
+Lemma bump_ok : forall fx sigs,
+  (forall e s k, check_expr fx sigs (bump k s) e =
+     (bump k (fst (check_expr fx sigs s e)), snd (check_expr fx sigs s e))) /\
+  (forall b s k t0, check_block fx sigs (bump k s) t0 b =
+     (bump k (fst (check_block fx sigs s t0 b)), snd (check_block fx sigs s t0 b))).
+Proof.
+  intros fx sigs. apply expr_block_ind.
+  - reflexivity.
+  - intros x s k. cbn [check_expr bump slocals]. destruct (lookup (slocals s) x); reflexivity.
+  - intros e IH s k. cbn [check_expr]. apply IH.
+  - intros e IH s k. cbn [check_expr]. rewrite IH. destruct (check_expr fx sigs s e) as [s1 t]. cbn [fst snd].
+    destruct t; try reflexivity. destruct (N.eqb np 0); [rewrite bump_throw|]; reflexivity.
+  - intros m s k. cbn [check_expr]. destruct (lookup sigs m) as [[t u]|]; [rewrite bump_throw|]; reflexivity.
+  - intros ps rt th body IH s k. cbn [check_expr]. cbn [bump sregs slocals serrs sthrown].
+    set (r1 := mkRegs rt th MethodMode _ _ _).
+    set (decl := match th with Some u => u | None => [] end).
+    change (mkSt r1 (ps ++ slocals s) (serrs s + k) decl) with (bump k (mkSt r1 (ps ++ slocals s) (serrs s) decl)).
+    rewrite IH. destruct (check_block fx sigs (mkSt r1 (ps ++ slocals s) (serrs s) decl) TNil body) as [s2 bt].
+    cbn [fst snd]. unfold exit_method, bump. cbn [sregs slocals serrs sthrown]. f_equal. f_equal.
+    destruct rt as [r|]; [|reflexivity]. destruct (rinfr (sregs s)); [reflexivity|].
+    destruct (assignable bt r); reflexivity.
+  - intros x e IH s k. cbn [check_expr]. rewrite IH. destruct (check_expr fx sigs s e) as [s1 t]. cbn [fst snd bump slocals].
+    destruct (lookup (slocals s1) x); [destruct (assignable t t0)|]; reflexivity.
+  - intros x e IH s k. cbn [check_expr]. rewrite IH. destruct (check_expr fx sigs s e) as [s1 t]. cbn [fst snd bump slocals].
+    destruct (lookup (slocals s1) x); [destruct (assignable t t0)|]; reflexivity.
+  - intros e IH s k. cbn [check_expr]. rewrite IH. destruct (check_expr fx sigs s e) as [s1 t]. cbn [fst snd bump sregs].
+    destruct (rinfr (sregs s1)); [reflexivity|].
+    destruct (rret (sregs s1)); [destruct (assignable t t0)|]; reflexivity.
+  - intros c s k. cbn [check_expr]. rewrite bump_throw. reflexivity.
+  - intros body IHb ct handler IHh s k. cbn [check_expr]. rewrite IHh.
+    destruct (check_block fx sigs s TNil handler) as [s1 th]. cbn [fst snd].
+    change (push_scope (set_locals (bump k s1) (slocals (bump k s))) ct)
+      with (bump k (push_scope (set_locals s1 (slocals s)) ct)).
+    rewrite IHb. destruct (check_block fx sigs (push_scope (set_locals s1 (slocals s)) ct) TNil body) as [s3 tb].
+    reflexivity.
+  - reflexivity.
+  - intros e IHe b IHb s k t0. cbn [check_block]. rewrite IHe. destruct (check_expr fx sigs s e) as [s1 t1].
+    cbn [fst snd]. apply IHb.
+Qed.
+
+Definition delta (sigs : sigs_t) (m : mdef) : nat := serrs (check_method true sigs top m).
+
+Lemma method_delta : forall sigs s m,
+  check_method true sigs s m = mkSt (sregs s) (slocals s) (delta sigs m + serrs s) (sthrown s).
+Proof.
+  intros sigs s [[[n rt] u] b]. unfold delta, check_method. cbn [top serrs].
+  set (r1 := mkRegs (Some rt) (Some u) MethodMode (scopes_of u) false false).
+  change (mkSt r1 [] (serrs s) u) with (bump (serrs s) (mkSt r1 [] 0 u)).
+  rewrite (proj2 (bump_ok true sigs)).
+  destruct (check_block true sigs (mkSt r1 [] 0 u) TNil b) as [s2 bt]. cbn [fst snd].
+  unfold exit_method, leave. cbn [sregs slocals sthrown serrs top]. f_equal.
+  destruct (assignable bt rt); reflexivity.
+Qed.
+
+Lemma fold_delta : forall sigs ms s,
+  fold_left (check_method true sigs) ms s =
+  mkSt (sregs s) (slocals s) (list_sum (map (delta sigs) ms) + serrs s) (sthrown s).
+Proof.
+  induction ms as [|m ms IH]; intros s; cbn [fold_left map list_sum fold_right].
+  - destruct s; reflexivity.
+  - rewrite IH, method_delta. cbn [sregs slocals serrs sthrown]. f_equal. unfold list_sum. cbn [fold_right]. lia.
+Qed.
+
+Lemma list_sum_perm : forall l l', Permutation l l' -> list_sum l = list_sum l'.
+Proof. induction 1; unfold list_sum in *; cbn in *; lia. Qed.
+
+Definition sigs_equiv (a b : sigs_t) : Prop := forall m, lookup a m = lookup b m.
+
+Lemma sigs_ok : forall fx a b, sigs_equiv a b ->
+  (forall e s, check_expr fx a s e = check_expr fx b s e) /\
+  (forall bl s t0, check_block fx a s t0 bl = check_block fx b s t0 bl).
+Proof.
+  intros fx a b H. apply expr_block_ind.
+  - reflexivity.
+  - reflexivity.
+  - intros e IH s. cbn [check_expr]. apply IH.
+  - intros e IH s. cbn [check_expr]. now rewrite IH.
+  - intros m s. cbn [check_expr]. now rewrite H.
+  - intros ps rt th body IH s. cbn [check_expr]. now rewrite IH.
+  - intros x e IH s. cbn [check_expr]. now rewrite IH.
+  - intros x e IH s. cbn [check_expr]. now rewrite IH.
+  - intros e IH s. cbn [check_expr]. now rewrite IH.
+  - reflexivity.
+  - intros body IHb ct handler IHh s. cbn [check_expr]. rewrite IHh.
+    destruct (check_block fx b s TNil handler) as [s1 th]. now rewrite IHb.
+  - reflexivity.
+  - intros e IHe bl IHb s t0. cbn [check_block]. rewrite IHe. destruct (check_expr fx b s e) as [s1 t1]. apply IHb.
+Qed.
+
+Lemma sigs_method : forall fx a b, sigs_equiv a b -> forall s m, check_method fx a s m = check_method fx b s m.
+Proof. intros fx a b H s [[[n rt] u] bd]. unfold check_method. now rewrite (proj2 (sigs_ok fx a b H)). Qed.
+
+Lemma lookup_perm : forall (l l' : sigs_t), Permutation l l' -> NoDup (map fst l) -> sigs_equiv l l'.
+Proof.
+  induction 1; intros Hn m.
+  - reflexivity.
+  - destruct x as [y t]. cbn. inversion Hn; subst. destruct (N.eqb m y); auto. now apply IHPermutation.
+  - destruct x as [a ta], y as [b tb]. cbn in *. inversion Hn as [|? ? Hin _]; subst.
+    destruct (N.eqb m b) eqn:E1; destruct (N.eqb m a) eqn:E2; auto.
+    apply N.eqb_eq in E1. apply N.eqb_eq in E2. subst. exfalso. apply Hin. left. reflexivity.
+  - rewrite IHPermutation1; auto. apply IHPermutation2.
+    eapply Permutation_NoDup; [apply Permutation_map; exact H | exact Hn].
+Qed.
+
+Theorem reorder_methods : forall ms ms' mn,
+  Permutation ms ms' -> NoDup (map fst (sigs_of ms)) ->
+  errors true (mkProg ms' mn) = errors true (mkProg ms mn).
+Proof.
+  intros ms ms' mn Hp Hn. unfold errors, check_prog. cbn [methods main].
+  assert (He : sigs_equiv (sigs_of ms') (sigs_of ms)).
+  { intro m. symmetry. apply (lookup_perm (sigs_of ms) (sigs_of ms')); auto.
+    unfold sigs_of. now apply Permutation_map. }
+  rewrite (proj2 (sigs_ok true _ _ He)).
+  rewrite !fold_delta.
+  assert (Hs : list_sum (map (delta (sigs_of ms')) ms') = list_sum (map (delta (sigs_of ms)) ms)).
+  { rewrite (list_sum_perm _ _ (Permutation_map (delta (sigs_of ms')) (Permutation_sym Hp))).
+    f_equal. apply map_ext. intro m. unfold delta. now rewrite (sigs_method true _ _ He). }
+  now rewrite Hs.
+Qed.
